@@ -9,7 +9,7 @@
 (*  {"op":"missing","what":"variable"|"function","key":k,"outcome":O,      *)
 (*   "named":B}    evaluation with that one name unresolved                *)
 (***************************************************************************)
-EXTENDS ExprEval, Json
+EXTENDS ExprEval, Json, Held
 VARIABLE l
 Trace == ndJsonDeserialize("trace.ndjson")
 F(ok, name) == IF ok THEN "" ELSE name \o "; "
@@ -61,7 +61,7 @@ Init == l = 1
 Next ==
   /\ l <= Len(Trace)
   /\ l' = l + 1
-  /\ LET f == Fails(Trace[l]) IN f = "" \/ PrintT("VERIF-FAIL " \o ToString(l) \o " " \o f)
+  /\ LET f == Fails(Trace[l]) IN Report(l, f, Trace[l])
 Spec == Init /\ [][Next]_l
 Accepted == TLCGet("stats").diameter - 1 = Len(Trace)
 =============================================================================
